@@ -162,6 +162,12 @@ def build(src: str, name: str, site: dict, where: str) -> tuple[ast.FunctionDef,
                 found.append((s, s.value))
             elif isinstance(s, ast.Assign) and len(s.targets) == 1 and ast.unparse(s.targets[0]) == target:
                 found.append((s, s.value))
+            elif (isinstance(s, ast.Assign) and len(s.targets) == 1 and isinstance(s.targets[0], ast.Tuple)
+                  and isinstance(s.value, ast.Tuple) and len(s.targets[0].elts) == len(s.value.elts)):
+                # `a, b = e1, e2`: the right-hand sides are evaluated before any name is rebound
+                for t_i, v_i in zip(s.targets[0].elts, s.value.elts):
+                    if ast.unparse(t_i) == target:
+                        found.append((s, v_i))
         if found and not site.get("all_defs"):
             break
     if len(found) <= nth:
